@@ -22,6 +22,21 @@ def handle : Handler
       match Obj.default bases.toArray r with
       | .error e => return e.toVal
       | .ok o => return .list [encodeObj o, ofExcept encodeTensor (o.evaluate tol ps tensor)]
+  | "obj_eval_seq", [ov, tolv, callsv] => some <| Id.run do
+      -- several evaluation calls on ONE object (evaluation is a pure query: the model answers each
+      -- from the same value), followed by the object itself, which must be unchanged
+      let some o := decodeObj ov | return bad
+      let some tol := tolv.toRat? | return bad
+      let some calls := callsv.toList? | return bad
+      let mut out : Array Val := #[]
+      for c in calls do
+        match c.toList? with
+        | some [pv, tv] =>
+          let some ps := decodeRatLists pv | return bad
+          let some tensor := tv.toBool? | return bad
+          out := out.push (ofExcept encodeTensor (o.evaluate tol ps tensor))
+        | _ => return bad
+      return .list (out.toList ++ [encodeObj o])
   | "obj_bbox", [ov] => some <| Id.run do
       let some o := decodeObj ov | return bad
       return .list (o.boundingBox.map (fun (a, b) => .list [.num a, .num b]))
